@@ -355,3 +355,87 @@ def check_C13(sc, v, tier, seed, replay):
     def key(r, e):
         return "%s:%s" % (e.get("fn"), r["why"][:80])
     _reject_to_violation(v, rejects, key)
+
+
+# ------------------------------------------------------------------------------------------------
+# C01 / C02 / C19: the real emulator process against the specification's AMF run by TLC
+# ------------------------------------------------------------------------------------------------
+def _online_collect(v, runs, pid):
+    for r in runs:
+        t = r["tlc"]
+        if not t.ok:
+            raise HarnessError("online run %s: TLC did not complete: %s\n%s" % (r["name"], t.error, t.out[-1500:]))
+        if r["verdict"] is None:
+            raise HarnessError("online run %s produced no verdict" % r["name"])
+        v.add_tlc([t])
+        v.traces += 1
+        v.evaluations += r["verdict"]["k"]
+        for n in r["verdict"]["notes"]:
+            v.distinct.add((r["name"], n["k"]))
+        for rj in t.rejects:
+            key = "%s:%s" % (rj["ev"], rj["why"].split(":")[-2].strip()[:50] if rj["why"].count(":") >= 2 else rj["why"][:50])
+            v.violation(key, rj["why"], {"run": r["name"], "message_index": rj["line"], "why": rj["why"], "scenario": r["scn"],
+                                         "pump_log": open(os.path.join(r["dir"], "pump.ndjson")).read().splitlines()[:200]})
+
+
+def _mc_stg(sc, v):
+    """design level: exhaustive model checking of the abstract system specification"""
+    for cfgname in ("MCStg",):
+        p = os.path.join(vlib.SPEC, cfgname + ".cfg")
+        if not os.path.exists(p):
+            continue
+        d = sc.specdir()
+        r = vlib.run_tlc(d, "Stg", open(p).read(), name=cfgname, timeout=1200, workers=vlib.NCPU, heap="12g")
+        if not r.ok:
+            raise HarnessError("%s: the system specification violates its own properties or TLC failed: %s" % (cfgname, r.error))
+        v.add_tlc([r])
+        v.extra["mc_" + cfgname + "_distinct_states"] = r.distinct
+
+
+def check_C01(sc, v, tier, seed, replay):
+    import random
+    import online
+    _mc_stg(sc, v)
+    emu = online.prepare(sc)
+    rnd = random.Random(seed * 1009 + 1)
+    n = 3 if tier == "quick" else 24
+    jobs = []
+    for i in range(n):
+        nue = 1 + (i % 3 if tier != "quick" else (1 if i == 2 else 0))
+        counts = {"reg": nue, "pdu": 0, "svc": 0, "rel": 0, "dereg": 0}
+        opts = {"mnc_len": 2 + i % 2, "use_opc": i % 2 == 0, "gnb_bits": [22, 24, 27, 32, 25, 31][i % 6], "name_len": [7, 1, 150, 2, 75][i % 5],
+                "imsi_len": [15, 14, 13, 15, 12, 11][i % 6]}
+        scn, text = online.make_scenario(rnd, counts, opts=opts)
+        jobs.append(("reg%02d" % i, scn, text))
+    runs = online.run_many(sc, emu, jobs, parallel=8)
+    _online_collect(v, runs, "C01")
+    v.samples = [{"scenario_cfg": runs[0]["scn"]["cfg"], "amf_choices_ue1": runs[0]["scn"]["ues"][0], "notes": runs[0]["verdict"]["notes"]}]
+    v.rule = ("scenarios = configuration (IMSI length 11..15, MNC length 2|3, K, OP or OPc, gNB id 22..32 bits, names 1..150) x AMF choices "
+              "(RAND, SQN, AMF field, AMF-UE-NGAP-ID over 0..2^40-1 boundaries, ngKSI, optional IEs) x 1..3 UEs; every uplink message of the "
+              "real process is judged by Amf!AmfHandle in TLC; distinct = (run, uplink message)")
+    v.assumptions = ["AMF family A1-A4 of Amf.tla", "PDU session identity derived by the emulator lies in 1..15 for the chosen IMSIs"]
+
+
+def check_C02(sc, v, tier, seed, replay):
+    import random
+    import online
+    _mc_stg(sc, v)
+    emu = online.prepare(sc)
+    rnd = random.Random(seed * 1013 + 2)
+    shapes = [(1, 1, 1, 1, 1), (2, 2, 1, 1, 2), (2, 3, 3, 3, 3)]
+    if tier != "quick":
+        shapes += [(3, 3, 3, 3, 3), (3, 2, 1, 0, 3), (2, 0, 3, 3, 1), (1, 3, 0, 2, 0), (3, 1, 2, 1, 2), (2, 2, 0, 2, 2), (2, 2, 2, 0, 0),
+                   (1, 1, 0, 0, 1), (3, 3, 0, 3, 0), (2, 1, 3, 3, 3), (1, 0, 0, 0, 1), (3, 2, 2, 2, 1), (2, 2, 2, 1, 1)]
+    jobs = []
+    for i, s in enumerate(shapes):
+        counts = dict(zip(("reg", "pdu", "svc", "rel", "dereg"), s))
+        scn, text = online.make_scenario(rnd, counts, opts={"mnc_len": 2 + i % 2})
+        jobs.append(("life%02d" % i, scn, text))
+    runs = online.run_many(sc, emu, jobs, parallel=8, timeout=1500)
+    _online_collect(v, runs, "C02")
+    v.samples = [{"counts": runs[-1]["scn"]["cfg"]["counts"], "notes": runs[-1]["verdict"]["notes"]}]
+    v.rule = ("complete test-mode runs of the real process (all five loops) for 1..3 UEs and repetition vectors including counts larger than "
+              "their prerequisites, network-assigned UE IP / TEID / UPF address, QoS rule lengths 0..1000, optional IEs of the Accept and of "
+              "the transfer on/off, aggregate bit rates up to 4e12; every uplink message judged by Amf!AmfHandle in TLC, session reports "
+              "(hook H2) and procedure counts judged at the end; distinct = (run, uplink message)")
+    v.assumptions = ["AMF family A1-A4 of Amf.tla", "PDU session identity derived by the emulator lies in 1..15 for the chosen IMSIs"]
